@@ -64,12 +64,15 @@ pub static ALL: [&Encoding; 40] = [
 
 /// The multi-byte / special ones, used to weight workloads towards the
 /// converters that actually carry state between calls.
-pub static STATEFUL: [&Encoding; 13] = [
+pub static STATEFUL: [&Encoding; 16] = [
     BIG5,
     EUC_JP,
     EUC_KR,
     GBK,
     GB18030,
+    GB18030,
+    ISO_2022_JP,
+    ISO_2022_JP,
     ISO_2022_JP,
     SHIFT_JIS,
     UTF_16BE,
